@@ -20,9 +20,23 @@ def register(reg):
     register_builder_shapes(reg)
     reg.shape('ModuleVistor', {'builder': 'Ref[ASTBuilder]', 'system': 'Ref[System]'})
     reg.shapes['Module'].fields.update({'all': 'Opt[Set[Str]]'})      # only membership in __all__ matters here
+    # lookup by a possibly outdated name: the registry first, then the alias left behind by a move (System.find_object)
+    reg.contract(M, 'Documentable.expandName', params={'name': 'Str'}, returns='Str', pure=True, raises={}, assumed=True,
+                 reads=['name', 'parent', 'contents', '_localNameToFullName_map', 'allobjects'], source='name expansion (C04, native harness)')
+    reg.contract(M, 'System.objForFullName', params={'fullName': 'Str'}, returns='RefN[Documentable]', pure=True, raises={}, assumed=True,
+                 reads=['allobjects'], ensures=['result == self.allobjects.get(fullName)'], source='self.allobjects.get(fullName)')
+    reg.contract(M, 'System.find_object', params={'full_name': 'Str'}, returns='RefN[Documentable]', pure=True, assumed=True,
+                 reads=['name', 'parent', 'contents', '_localNameToFullName_map', 'allobjects', 'rootobjects'],
+                 raises={'LookupError': 'lookup_fails(self, full_name)'}, result_is='found(self, full_name)',
+                 ensures=['not lookup_fails(self, full_name)'],        # it returns exactly when it does not raise
+                 source='follows the alias chain from the root named by the first part; LookupError when the root is ours but the rest is unknown')
+    EXP = 'self.system.objForFullName(self.expandName(name))'
     reg.contract(M, 'Documentable.resolveName', params={'name': 'Str'}, returns='RefN[Documentable]', pure=True,
-                 reads=['name', 'parent', 'contents', '_localNameToFullName_map', 'allobjects'], raises={}, assumed=True,
-                 source='name resolution (C04)')
+                 reads=['name', 'parent', 'contents', '_localNameToFullName_map', 'allobjects', 'rootobjects', 'system'], raises={},
+                 ensures=[f'implies({EXP} is not None, result == {EXP})',
+                          # the *expanded* name is what is looked up through the aliases
+                          f'implies({EXP} is None and not lookup_fails(self.system, self.expandName(name)), result == found(self.system, self.expandName(name)))',
+                          f'implies({EXP} is None and lookup_fails(self.system, self.expandName(name)), result is None)'])
     reg.contract(M, 'Documentable.report', params={'descr': 'Str', 'section': 'Str', 'lineno_offset': 'Int', 'thresh': 'Int'},
                  raises={}, modifies=['violations', 'once_msgs', 'needsnl'], assumed=True, source='verified under C16')
     reg.contract(M, 'System.msg', params={'section': 'Str', 'msg': 'Str', 'thresh': 'Int', 'topthresh': 'Int', 'nonl': 'Bool',
